@@ -65,8 +65,10 @@ func icToLin(r *icRun) []linOp {
 				}
 			}
 		case "range":
-			for _, kv := range c.Visited {
-				ops = append(ops, linOp{kind: "readhit", k: kv[0], v: kv[1], inv: c.Inv, ret: c.Ret, desc: d, tag: "range"})
+			// a visit reads the pair while the shard's read lock is held and hands it to the callback at
+			// once: it is a read at the instant of the callback, not somewhere within the whole Range call
+			for i, kv := range c.Visited {
+				ops = append(ops, linOp{kind: "readhit", k: kv[0], v: kv[1], inv: c.VisitAt[i], ret: c.VisitAt[i], desc: d, tag: "range"})
 			}
 			continue
 		default:
